@@ -26,7 +26,7 @@ SRC = vlib.BASE_SRC + [
 ]
 WRAPPED = ["write", "writev", "send", "sendto", "sendmsg", "read", "readv", "recv", "recvfrom", "recvmsg"]
 SPEC = "ByteStream"
-MC_ACTIONS = ["Send", "Enable", "Disable", "WritableCb", "CompleteExit", "PeerRead", "PeerWrite", "PeerClose", "RecvEnter",
+MC_ACTIONS = ["Send", "Enable", "Disable", "WritableCb", "CompleteExit", "PeerRead", "PeerWrite", "PeerClose", "PeerAbort", "RecvEnter",
               "RecvExit", "ReadZeroEnter", "ReadZeroExit"]
 INVS = ["StreamConserved", "SendCompleteOnlyWhenDrained", "Progress", "RecvInOrderOnce", "CloseOnceAfterData", "NoDeleteInCallback"]
 
@@ -56,7 +56,11 @@ def scan(tr):
     insend = False
     backlog = False         # a send was not written completely and the backlog has not been reported drained yet
     left = 0
+    prev_r_data = False
+    wr = pg = 0
     for line in open(tr):
+        was_r_data = prev_r_data
+        prev_r_data = line.startswith('{"e":"R",') and '"ret":-1' not in line and '"ret":0,' not in line
         if line.startswith('{"e":"W"'):
             m = RE_W.match(line, 1 - 1) or RE_W.search(line)
             req, ret, again = int(m.group(1)), int(m.group(2)), m.group(4) == "true"
@@ -67,6 +71,8 @@ def scan(tr):
                     st["partial_sends_inside_send_complete_after_backlog"] = st.get("partial_sends_inside_send_complete_after_backlog", 0) + 1
             if insend and ret < req:
                 backlog = True
+            if ret > 0:
+                wr += ret
             if 0 <= ret < req:
                 st["partial_writes"] = st.get("partial_writes", 0) + 1
             if again:
@@ -100,6 +106,7 @@ def scan(tr):
             running = '"tcp":true' in line
             left = 0
             incb = incomp = insend = backlog = False
+            wr = pg = 0
             st["executions"] = st.get("executions", 0) + 1
         elif line.startswith('{"e":"Enable"'):
             running = True
@@ -107,8 +114,22 @@ def scan(tr):
             running = False
         elif line.startswith('{"e":"Close"'):
             st["peer_close_reports"] = st.get("peer_close_reports", 0) + 1
+        elif line.startswith('{"e":"PShut","how":3'):
+            st["peer_aborts"] = st.get("peer_aborts", 0) + 1
+        elif line.startswith('{"e":"R",') and '"ret":-1' in line and '"again":false' in line:
+            st["read_errors_econnreset"] = st.get("read_errors_econnreset", 0) + 1
+            if was_r_data:
+                st["read_error_right_after_data_in_one_wakeup"] = st.get("read_error_right_after_data_in_one_wakeup", 0) + 1
+        elif line.startswith('{"e":"PRead"') and '"eof":false' in line:
+            pg += int(re.search(r'"n":(\d+)', line).group(1))
+        elif line.startswith('{"e":"PRead"') and '"eof":true' in line:
+            pg += int(re.search(r'"n":(\d+)', line).group(1))
+            k = "peer_saw_eof_after_local_close" if '"err":0' in line else "peer_saw_reset_after_local_close"
+            st[k] = st.get(k, 0) + 1
         elif line.startswith('{"e":"Disconnect","ret":true'):
             st["local_disconnects"] = st.get("local_disconnects", 0) + 1
+            if wr - pg > 100000:
+                st["local_disconnects_with_over_100KB_in_flight"] = st.get("local_disconnects_with_over_100KB_in_flight", 0) + 1
             if incb:
                 st["disconnects_inside_receive_callback"] = st.get("disconnects_inside_receive_callback", 0) + 1
         elif line.startswith('{"e":"CompleteRet"'):
@@ -231,6 +252,8 @@ def stream_exec(rnd, transport, buf):
             ops.append({"o": "pwrite", "n": rnd.randint(1, 5000)})
         else:
             ops.append({"o": "send", "n": rnd.randint(1, chunk)})
+    if tcp and rnd.random() < 0.4:       # leave while sent data is still in flight to a reader that has not caught up
+        ops.append({"o": "disconnect"})
     return {"t": transport, "thr": rnd.choice([0, 0, 2]), "buf": buf, "ops": finish(ops, tcp)}
 
 
@@ -288,7 +311,12 @@ def rand_exec(rnd, transport, buf, big):
             ops.append({"o": "disable" if running else "enable"})
             running = not running
         elif r < 0.93 and not closed:
-            ops.append({"o": rnd.choice(["pshut", "pshut", "pclose"])})
+            k = rnd.choice(["pshut", "pshut", "pclose", "pabort", "pabort"])
+            if k == "pabort" and rnd.random() < 0.7:      # the peer's last bytes and the reset are found in one wake-up
+                if rnd.random() < 0.5:
+                    ops.append({"o": "send", "n": size()})   # unread input at the peer (AF_UNIX: makes the close a reset)
+                ops.append({"o": "pwrite", "n": size()})
+            ops.append({"o": k})
             closed = True
         elif r < 0.95 and tcp and not gone:
             ops.append({"o": "disconnect"})
@@ -327,7 +355,7 @@ def parse_replay(path):
         elif k == "PWrite":
             cur.append({"o": "pwrite", "n": e["n"]})
         elif k == "PShut":
-            cur.append({"o": "pshut" if e["how"] == 1 else "pclose"})
+            cur.append({"o": {1: "pshut", 2: "pclose", 3: "pabort"}[e["how"]]})
         elif k == "Recv":
             p = {"o": "pass", "c": -1, "w": "recv", "in": []}
             cur.append(p)
@@ -436,10 +464,11 @@ def model_checks(ctx, quick):
     ctx.tlc_mc(SPEC, "MC_BufferedFd.tla", "MC_quick.cfg", required_actions=MC_ACTIONS)
     ctx.tlc_mc(SPEC, "MC_BufferedFd.tla", "MC_quick_tcp.cfg", required_actions=["LocalDisconnect", "RunNextDelete", "ReadZeroEnter"])
     ctx.tlc_mc(SPEC, "MC_BufferedFd.tla", "MC_asfound.cfg", expect="Progress", coverage=False)
-    bugs = [("MC_bug_latedisarm.cfg", "Progress"), ("MC_bug_directq.cfg", "StreamConserved"), ("MC_bug_complete.cfg", "SendCompleteOnlyWhenDrained"),
+    bugs = [("MC_bug_latedisarm.cfg", "Progress"), ("MC_bug_errorfirst.cfg", "CloseOnceAfterData"),
+            ("MC_bug_linger0.cfg", "StreamConserved"), ("MC_bug_directq.cfg", "StreamConserved"), ("MC_bug_complete.cfg", "SendCompleteOnlyWhenDrained"),
             ("MC_bug_norepresent.cfg", "RecvInOrderOnce"), ("MC_bug_eofrepeat.cfg", "CloseOnceAfterData"),
             ("MC_bug_deletenow.cfg", "NoDeleteInCallback"), ("MC_bug_readall.cfg", "StreamConserved")]
-    for cfg, inv in (bugs[:3] if quick else bugs):
+    for cfg, inv in (bugs[:4] if quick else bugs):
         ctx.tlc_mc(SPEC, "MC_BufferedFd.tla", cfg, expect=inv, coverage=False)
     temporal_mc(ctx, "MC_live.cfg", False)
     temporal_mc(ctx, "MC_live_asfound.cfg", True)
@@ -502,7 +531,9 @@ def binding(ctx, exe, quick, rnd):
         for k in ("partial_writes", "eagain_writes", "sends_while_not_enabled", "re_presentations_with_later_data", "peer_close_reports",
                   "local_disconnects", "sends_inside_receive_callback", "disconnects_inside_receive_callback",
                   "send_complete_notifications", "sends_inside_send_complete_callback",
-                  "partial_sends_inside_send_complete_after_backlog"):
+                  "partial_sends_inside_send_complete_after_backlog", "peer_aborts",
+                  "read_error_right_after_data_in_one_wakeup", "peer_saw_eof_after_local_close",
+                  "local_disconnects_with_over_100KB_in_flight"):
             if STATS.get(k, 0) == 0:
                 raise vlib.Infra("vacuity guard: no recorded execution reached '%s'" % k)
         if STATS.get("max_send", 0) < 1000000:
